@@ -1,4 +1,418 @@
 import Cpl.Model.RuleTables
+import Cpl.Lemmas.RuleTables
+
+/-!
+# C17 — Langton rule tables: complete, constrained, and lambda is reported truthfully
+
+`random_rule_table` returns a table with one entry in `0..k-1` for every one of the `k^(2r+1)` neighbourhood
+strings, honouring strong quiescence (uniform neighbourhoods map to their own state) and isotropy (a string
+and its mirror image map alike) when requested, and the lambda and quiescent state it reports are exactly
+those of the table. `table_walk_through` keeps the key set, value range and both constraints, moves lambda
+only towards the target, stops once the target is reached or crossed or no admissible entry remains, and
+reports the table's true lambda; `table_rule` looks a neighbourhood up by its digit string and raises
+`ValueError` when it is absent.
+
+Quantifiers: every `k ≥ 2`, every `r`, every quiescent state, every target `num/den`, every flag
+combination and **every** outcome of the random choices (`∀ oracle`).
+
+A table is an association list in insertion order (`RTable`); `t.map (·.1)` is its key list,
+`t.get s` is `table.get(s)`; lambda of a table is `(k^n - quiescentCount t q) / k^n`.
+-/
+
 namespace Cpl.C17
-theorem placeholder : True := trivial
+open Cpl Py
+
+/-! ## The two constraints on a table -/
+
+/-- **Strong quiescence**: every uniform key (`len(set(s)) == 1`) maps to its own state `s[0]`. -/
+def StronglyQuiescent (t : RTable) : Prop :=
+  ∀ s ∈ t.map (·.1), isUniform s = true → t.get s = s.head?
+
+/-- **Isotropy**: a string and its mirror image map alike (an absent string reads as `none`, so in
+    particular the mirror image of a key is a key). -/
+def Isotropic (t : RTable) : Prop :=
+  ∀ s, t.get s.reverse = t.get s
+
+/-! ## The key set -/
+
+/-- The enumeration `[base_repr(i, k).zfill(n) for i in range(k**n)]` lists every string of `n` digits
+    below `k` exactly once: no repetitions, `k^n` entries, and membership is "has `n` digits, all `< k`". -/
+theorem allStates_spec (k n : Nat) (hk : 2 ≤ k) (hn : 1 ≤ n) :
+    (allStates k n).Nodup ∧ (allStates k n).length = k ^ n ∧
+    ∀ s, s ∈ allStates k n ↔ (s.length = n ∧ ∀ d ∈ s, d < k) :=
+  ⟨allStates_nodup k n hk, allStates_length k n, mem_allStates_iff k n hk hn⟩
+
+/-- The key set is closed under mirror image. -/
+theorem allStates_reverse_closed (k n : Nat) (hk : 2 ≤ k) (hn : 1 ≤ n) (s : List Nat) :
+    s.reverse ∈ allStates k n ↔ s ∈ allStates k n :=
+  reverse_mem_allStates_iff k n hk hn s
+
+/-- Every constant string `c c … c` (`c < k`) is a key and is uniform (so strong quiescence is not vacuous). -/
+theorem uniform_keys (k n c : Nat) (hk : 2 ≤ k) (hn : 1 ≤ n) (hc : c < k) :
+    List.replicate n c ∈ allStates k n ∧ isUniform (List.replicate n c) = true := by
+  constructor
+  · rw [mem_allStates_iff k n hk hn]
+    refine ⟨by simp, ?_⟩
+    intro d hd
+    rw [(List.mem_replicate.mp hd).2]; exact hc
+  · obtain ⟨m, rfl⟩ : ∃ m, n = m + 1 := ⟨n - 1, by omega⟩
+    exact isUniform_replicate m c
+
+/-! ## `random_rule_table` -/
+
+/-- `random_rule_table` raises `ValueError` when the quiescent state is not one of `0..k-1`. -/
+theorem rrt_bad_q (k r q : Nat) (sq iso : Bool) (oracle : RrtOracle) (hq : q > k - 1) :
+    randomRuleTable k r q sq iso oracle = .error .ValueError := by
+  unfold randomRuleTable; rw [if_pos hq]
+
+/-- …and otherwise it returns a table (the statements below are about an existing result). -/
+theorem rrt_ok (k r q : Nat) (sq iso : Bool) (oracle : RrtOracle) (hq : q ≤ k - 1) :
+    ∃ st, randomRuleTable k r q sq iso oracle = .ok st := by
+  unfold randomRuleTable; rw [if_neg (by omega)]; exact ⟨_, rfl⟩
+
+/-- **Complete**: the returned table has every neighbourhood string of `2r+1` digits exactly once, in
+    enumeration order, and every value is one of `0..k-1`. -/
+theorem rrt_complete (k r q : Nat) (sq iso : Bool) (oracle : RrtOracle) (st : RrtSt) (hk : 2 ≤ k)
+    (h : randomRuleTable k r q sq iso oracle = .ok st) :
+    st.table.map (·.1) = allStates k (2 * r + 1) ∧ ∀ e ∈ st.table, e.2 < k := by
+  obtain ⟨_, inv⟩ := randomRuleTable_inv k r q sq iso oracle st hk h
+  exact ⟨inv.keys_eq, inv.range⟩
+
+/-- **Strong quiescence honoured**: with `strong_quiescence=True` every uniform neighbourhood maps to its
+    own state. -/
+theorem rrt_strong_quiescence (k r q : Nat) (sq iso : Bool) (oracle : RrtOracle) (st : RrtSt) (hk : 2 ≤ k)
+    (h : randomRuleTable k r q sq iso oracle = .ok st) (hsq : sq = true) :
+    StronglyQuiescent st.table := by
+  obtain ⟨_, inv⟩ := randomRuleTable_inv k r q sq iso oracle st hk h
+  intro s hs hu
+  obtain ⟨e, he, rfl⟩ := List.mem_map.mp hs
+  have hnd : (st.table.map (·.1)).Nodup := by rw [inv.keys_eq]; exact allStates_nodup k _ hk
+  rw [RTable.get_of_mem st.table hnd e.1 e.2 he, inv.sq_ok hsq e he hu, head?_of_isUniform e.1 hu]
+
+/-- Strong quiescence, concretely: the all-`c` neighbourhood maps to `c`, for every state `c < k`. -/
+theorem rrt_strong_quiescence_const (k r q : Nat) (sq iso : Bool) (oracle : RrtOracle) (st : RrtSt)
+    (hk : 2 ≤ k) (h : randomRuleTable k r q sq iso oracle = .ok st) (hsq : sq = true)
+    (c : Nat) (hc : c < k) :
+    st.table.get (List.replicate (2 * r + 1) c) = some c := by
+  obtain ⟨hmem, hu⟩ := uniform_keys k (2 * r + 1) c hk (by omega) hc
+  have := rrt_strong_quiescence k r q sq iso oracle st hk h hsq _
+    (by rw [(rrt_complete k r q sq iso oracle st hk h).1]; exact hmem) hu
+  rw [this]; simp [List.replicate_succ]
+
+/-- **Isotropy honoured**: with `isotropic=True` a string and its mirror image map alike. -/
+theorem rrt_isotropic (k r q : Nat) (sq iso : Bool) (oracle : RrtOracle) (st : RrtSt) (hk : 2 ≤ k)
+    (h : randomRuleTable k r q sq iso oracle = .ok st) (hiso : iso = true) :
+    Isotropic st.table := by
+  obtain ⟨_, inv⟩ := randomRuleTable_inv k r q sq iso oracle st hk h
+  intro s
+  by_cases hs : s ∈ allStates k (2 * r + 1)
+  · have hr : s.reverse ∈ allStates k (2 * r + 1) := reverse_mem_allStates k _ hk (by omega) s hs
+    obtain ⟨c, hc⟩ := (RTable.get_isSome_iff st.table s).mpr (by rw [inv.keys_eq]; exact hs)
+    obtain ⟨c', hc'⟩ := (RTable.get_isSome_iff st.table s.reverse).mpr (by rw [inv.keys_eq]; exact hr)
+    rw [hc, hc', inv.iso_ok hiso s c c' hc hc']
+  · have hr : s.reverse ∉ allStates k (2 * r + 1) :=
+      fun hh => hs ((reverse_mem_allStates_iff k _ hk (by omega) s).mp hh)
+    rw [(RTable.get_eq_none_iff st.table s).mpr (by rw [inv.keys_eq]; exact hs),
+      (RTable.get_eq_none_iff st.table s.reverse).mpr (by rw [inv.keys_eq]; exact hr)]
+
+/-- Both flags together: both constraints hold. -/
+theorem rrt_both_constraints (k r q : Nat) (oracle : RrtOracle) (st : RrtSt) (hk : 2 ≤ k)
+    (h : randomRuleTable k r q true true oracle = .ok st) :
+    StronglyQuiescent st.table ∧ Isotropic st.table :=
+  ⟨rrt_strong_quiescence k r q true true oracle st hk h rfl,
+   rrt_isotropic k r q true true oracle st hk h rfl⟩
+
+/-- **Lambda reported truthfully**: the quiescent count behind the reported lambda `(k^n - count) / k^n` is
+    exactly the number of entries of the returned table that map to the quiescent state. -/
+theorem rrt_lambda_true (k r q : Nat) (sq iso : Bool) (oracle : RrtOracle) (st : RrtSt) (hk : 2 ≤ k)
+    (h : randomRuleTable k r q sq iso oracle = .ok st) :
+    st.count = quiescentCount st.table q := by
+  obtain ⟨_, inv⟩ := randomRuleTable_inv k r q sq iso oracle st hk h
+  exact inv.count_eq
+
+/-- The reported count never exceeds `k^n`, so the reported lambda lies in `[0, 1]`. -/
+theorem rrt_count_le (k r q : Nat) (sq iso : Bool) (oracle : RrtOracle) (st : RrtSt) (hk : 2 ≤ k)
+    (h : randomRuleTable k r q sq iso oracle = .ok st) :
+    st.count ≤ k ^ (2 * r + 1) := by
+  rw [rrt_lambda_true k r q sq iso oracle st hk h, ← allStates_length k (2 * r + 1),
+    ← (rrt_complete k r q sq iso oracle st hk h).1, List.length_map]
+  exact quiescentCount_le_length _ _
+
+/-! ## `table_walk_through`
+
+`W := tableWalkThrough t num den k r q sq iso oracle` for a table `t` whose key list is
+`allStates k (2r+1)`. The value reported next to `W.table` by the driver is `quiescentCount W.table q`
+computed from the returned table itself (the Python code calls `actual_lambda()` on the final table), so
+"reports the table's true lambda" holds by construction and is not restated as a theorem. -/
+
+/-- **Key set kept**: same keys, same order. -/
+theorem walk_keys (t : RTable) (num den k r q : Nat) (sq iso : Bool) (oracle : WalkOracle) (hk : 2 ≤ k)
+    (hkeys : t.map (·.1) = allStates k (2 * r + 1)) :
+    (tableWalkThrough t num den k r q sq iso oracle).table.map (·.1) = t.map (·.1) := by
+  have hclosed : ∀ t' : RTable, t'.map (·.1) = t.map (·.1) →
+      ∀ u ∈ t'.map (·.1), u.reverse ∈ t'.map (·.1) := by
+    intro t' ht' u hu
+    rw [ht', hkeys] at hu ⊢
+    exact reverse_mem_allStates k _ hk (by omega) u hu
+  unfold tableWalkThrough
+  dsimp only
+  split
+  · rfl
+  · split
+    · apply walkDown_induct _ _ _ _ _ _ _ _ (fun t' => t'.map (·.1) = t.map (·.1)) _ _ _ rfl
+      intro t' s ht' hs
+      rw [walkSet_keys_down q sq iso t' s q (hclosed t' ht') hs, ht']
+    · apply walkUp_induct _ _ _ _ _ _ _ _ hk (fun t' => t'.map (·.1) = t.map (·.1)) _ _ _ rfl
+      intro t' s v ht' hs _ _
+      rw [walkSet_keys_up q sq iso t' s v (hclosed t' ht') hs, ht']
+
+/-- **Value range kept**: every value stays in `0..k-1`. -/
+theorem walk_range (t : RTable) (num den k r q : Nat) (sq iso : Bool) (oracle : WalkOracle) (hk : 2 ≤ k)
+    (hq : q < k) (hrange : ∀ e ∈ t, e.2 < k) :
+    ∀ e ∈ (tableWalkThrough t num den k r q sq iso oracle).table, e.2 < k := by
+  unfold tableWalkThrough
+  dsimp only
+  split
+  · exact hrange
+  · split
+    · apply walkDown_induct _ _ _ _ _ _ _ _ (fun t' => ∀ e ∈ t', e.2 < k) _ _ _ hrange
+      intro t' s ht' _
+      exact walkSet_range iso t' s q k hq ht'
+    · apply walkUp_induct _ _ _ _ _ _ _ _ hk (fun t' => ∀ e ∈ t', e.2 < k) _ _ _ hrange
+      intro t' s v ht' _ hv _
+      exact walkSet_range iso t' s v k hv ht'
+
+/-- One iteration on a non-uniform key keeps strong quiescence. -/
+private theorem walkSet_sq (iso : Bool) (t : RTable) (s : List Nat) (v : Nat)
+    (hs : isUniform s = false) (h : StronglyQuiescent t) : StronglyQuiescent (walkSet iso t s v) := by
+  intro u hu huni
+  rw [walkSet_get_of_uniform iso t s u v hs huni]
+  rcases walkSet_mem_keys iso t s u v hu with hu | rfl | rfl
+  · exact h u hu huni
+  · rw [hs] at huni; exact absurd huni (by simp)
+  · rw [isUniform_reverse, hs] at huni; exact absurd huni (by simp)
+
+/-- **Strong quiescence kept**: with `strong_quiescence=True`, a strongly quiescent table stays so. -/
+theorem walk_strong_quiescence (t : RTable) (num den k r q : Nat) (sq iso : Bool) (oracle : WalkOracle)
+    (hk : 2 ≤ k) (hsq : sq = true) (h : StronglyQuiescent t) :
+    StronglyQuiescent (tableWalkThrough t num den k r q sq iso oracle).table := by
+  unfold tableWalkThrough
+  dsimp only
+  split
+  · exact h
+  · split
+    · apply walkDown_induct _ _ _ _ _ _ _ _ StronglyQuiescent _ _ _ h
+      intro t' s ht' hs
+      exact walkSet_sq iso t' s q (((mem_downCands q sq t' s).mp hs).2 hsq) ht'
+    · apply walkUp_induct _ _ _ _ _ _ _ _ hk StronglyQuiescent _ _ _ h
+      intro t' s v ht' hs _ _
+      exact walkSet_sq iso t' s v (((mem_upCands q sq t' s).mp hs).2 hsq) ht'
+
+/-- **Isotropy kept**: with `isotropic=True`, an isotropic table stays so. -/
+theorem walk_isotropic (t : RTable) (num den k r q : Nat) (sq iso : Bool) (oracle : WalkOracle)
+    (hk : 2 ≤ k) (hiso : iso = true) (h : Isotropic t) :
+    Isotropic (tableWalkThrough t num den k r q sq iso oracle).table := by
+  subst hiso
+  unfold tableWalkThrough
+  dsimp only
+  split
+  · exact h
+  · split
+    · apply walkDown_induct _ _ _ _ _ _ _ _ Isotropic _ _ _ h
+      intro t' s ht' _
+      exact walkSet_iso t' s q ht'
+    · apply walkUp_induct _ _ _ _ _ _ _ _ hk Isotropic _ _ _ h
+      intro t' s v ht' _ _ _
+      exact walkSet_iso t' s v ht'
+
+/-- **Lambda moves only towards the target.** With `c0`, `c1` the quiescent counts before and after
+    (lambda = `(total - c) / total`): started above the target → the count did not drop (lambda did not rise);
+    started below → the count did not rise (lambda did not drop); started on target → table unchanged. -/
+theorem walk_monotone (t : RTable) (num den k r q : Nat) (sq iso : Bool) (oracle : WalkOracle)
+    (hk : 2 ≤ k) :
+    let total := k ^ (2 * r + 1)
+    let c0 := quiescentCount t q
+    let W := tableWalkThrough t num den k r q sq iso oracle
+    let c1 := quiescentCount W.table q
+    (lamGt total c0 num den = true → c0 ≤ c1) ∧
+    (lamLt total c0 num den = true → c1 ≤ c0) ∧
+    (lamEq total c0 num den = true → W.table = t) := by
+  intro total c0 W c1
+  refine ⟨?_, ?_, ?_⟩
+  · intro hgt
+    have heq : lamEq total c0 num den = false := by
+      simp only [lamGt, lamEq, decide_eq_true_eq, decide_eq_false_iff_not] at hgt ⊢; omega
+    show c0 ≤ quiescentCount (tableWalkThrough t num den k r q sq iso oracle).table q
+    unfold tableWalkThrough
+    dsimp only
+    rw [if_neg (by rw [heq]; simp), if_pos hgt]
+    apply walkDown_induct _ _ _ _ _ _ _ _ (fun t' => c0 ≤ quiescentCount t' q) _ _ _ (Nat.le_refl _)
+    intro t' s ht' hs
+    have := walkSet_count_down iso t' s q ((mem_downCands q sq t' s).mp hs).1
+    omega
+  · intro hlt
+    have heq : lamEq total c0 num den = false := by
+      simp only [lamLt, lamEq, decide_eq_true_eq, decide_eq_false_iff_not] at hlt ⊢; omega
+    have hgt : lamGt total c0 num den = false := by
+      simp only [lamLt, lamGt, decide_eq_true_eq, decide_eq_false_iff_not] at hlt ⊢; omega
+    show quiescentCount (tableWalkThrough t num den k r q sq iso oracle).table q ≤ c0
+    unfold tableWalkThrough
+    dsimp only
+    rw [if_neg (by rw [heq]; simp), if_neg (by rw [hgt]; simp)]
+    apply walkUp_induct _ _ _ _ _ _ _ _ hk (fun t' => quiescentCount t' q ≤ c0) _ _ _ (Nat.le_refl _)
+    intro t' s v ht' hs _ hv
+    have := walkSet_count_up iso t' s q v hv ((mem_upCands q sq t' s).mp hs).1
+    omega
+  · intro heq
+    show (tableWalkThrough t num den k r q sq iso oracle).table = t
+    unfold tableWalkThrough
+    dsimp only
+    rw [if_pos heq]
+
+/-- The candidate lists named in `walk_stops` are literally the ones the loops draw from. -/
+theorem candidates_def (q : Nat) (sq : Bool) (t : RTable) :
+    downCands q sq t =
+      (if sq then ((t.filter (·.2 != q)).map (·.1)).filter (fun s => !isUniform s)
+       else (t.filter (·.2 != q)).map (·.1)) ∧
+    upCands q sq t =
+      (if sq then ((t.filter (·.2 == q)).map (·.1)).filter (fun s => !isUniform s)
+       else (t.filter (·.2 == q)).map (·.1)) :=
+  ⟨rfl, rfl⟩
+
+/-- **Why the walk stops.** On exit, either the target is reached or crossed (started above: lambda is no
+    longer above the target; started below: no longer below), or no admissible entry remains (the candidate
+    list computed from the returned table is empty). The `attempts < len(rule_table)` bound is therefore
+    never the binding reason: every iteration changes the quiescent count by at least one, and the count
+    lives in `0 .. len(table)`. -/
+theorem walk_stops (t : RTable) (num den k r q : Nat) (sq iso : Bool) (oracle : WalkOracle)
+    (hk : 2 ≤ k) (hkeys : t.map (·.1) = allStates k (2 * r + 1)) :
+    let total := k ^ (2 * r + 1)
+    let c0 := quiescentCount t q
+    let W := tableWalkThrough t num den k r q sq iso oracle
+    let c1 := quiescentCount W.table q
+    (lamGt total c0 num den = true → lamGt total c1 num den = false ∨ downCands q sq W.table = []) ∧
+    (lamLt total c0 num den = true → lamLt total c1 num den = false ∨ upCands q sq W.table = []) := by
+  intro total c0 W c1
+  have hlen : (allStates k (2 * r + 1)).length = k ^ (2 * r + 1) := allStates_length _ _
+  have htl : t.length = (allStates k (2 * r + 1)).length := by rw [← hkeys, List.length_map]
+  refine ⟨?_, ?_⟩
+  · intro hgt
+    have heq : lamEq total c0 num den = false := by
+      simp only [lamGt, lamEq, decide_eq_true_eq, decide_eq_false_iff_not] at hgt ⊢; omega
+    show lamGt total (quiescentCount (tableWalkThrough t num den k r q sq iso oracle).table q) num den = false
+      ∨ downCands q sq (tableWalkThrough t num den k r q sq iso oracle).table = []
+    unfold tableWalkThrough
+    dsimp only
+    rw [if_neg (by rw [heq]; simp), if_pos hgt]
+    exact walkDown_stops k (2 * r + 1) q sq iso num den oracle (allStates k (2 * r + 1))
+      (fun u hu => reverse_mem_allStates k _ hk (by omega) u hu) hlen t.length { table := t } hkeys
+      (by rw [htl]; omega)
+  · intro hlt
+    have heq : lamEq total c0 num den = false := by
+      simp only [lamLt, lamEq, decide_eq_true_eq, decide_eq_false_iff_not] at hlt ⊢; omega
+    have hgt : lamGt total c0 num den = false := by
+      simp only [lamLt, lamGt, decide_eq_true_eq, decide_eq_false_iff_not] at hlt ⊢; omega
+    show lamLt total (quiescentCount (tableWalkThrough t num den k r q sq iso oracle).table q) num den = false
+      ∨ upCands q sq (tableWalkThrough t num den k r q sq iso oracle).table = []
+    unfold tableWalkThrough
+    dsimp only
+    rw [if_neg (by rw [heq]; simp), if_neg (by rw [hgt]; simp)]
+    exact walkUp_stops k (2 * r + 1) q sq iso num den oracle hk t.length { table := t }
+      (quiescentCount_le_length t q)
+
+/-! ## `table_rule` -/
+
+/-- `table_rule` returns `v` exactly when the table maps the neighbourhood's digit string to `v`, and raises
+    `ValueError` exactly when the string is not a key. -/
+theorem tableRule_spec (nb : List Nat) (t : RTable) :
+    (∀ v, tableRule nb t = .ok v ↔ t.get nb = some v) ∧
+    (tableRule nb t = .error .ValueError ↔ nb ∉ t.map (·.1)) ∧
+    (∀ e, tableRule nb t = .error e → e = .ValueError) := by
+  unfold tableRule
+  refine ⟨?_, ?_, ?_⟩
+  · intro v
+    cases h : t.get nb with
+    | none => simp
+    | some w => simp
+  · rw [← RTable.get_eq_none_iff]
+    cases h : t.get nb with
+    | none => simp
+    | some w => simp
+  · intro e
+    cases h : t.get nb with
+    | none => simp; exact fun h => h.symm
+    | some w => simp
+
+/-- With distinct keys (as in every table above) the value returned is the one stored with that key. -/
+theorem tableRule_entry (nb : List Nat) (t : RTable) (hnd : (t.map (·.1)).Nodup) (v : Nat) :
+    tableRule nb t = .ok v ↔ (nb, v) ∈ t := by
+  rw [(tableRule_spec nb t).1 v]
+  exact ⟨RTable.mem_of_get t nb v, RTable.get_of_mem t hnd nb v⟩
+
+/-- **Total on its own alphabet**: on a complete table (key list `allStates k n`, values `< k`) `table_rule`
+    succeeds, with a value `< k`, exactly for the neighbourhoods of `n` digits below `k`. -/
+theorem tableRule_total (k n : Nat) (t : RTable) (hk : 2 ≤ k) (hn : 1 ≤ n)
+    (hkeys : t.map (·.1) = allStates k n) (hrange : ∀ e ∈ t, e.2 < k) (nb : List Nat) :
+    ((nb.length = n ∧ ∀ d ∈ nb, d < k) → ∃ v, v < k ∧ tableRule nb t = .ok v) ∧
+    (¬ (nb.length = n ∧ ∀ d ∈ nb, d < k) → tableRule nb t = .error .ValueError) := by
+  rw [← mem_allStates_iff k n hk hn nb, ← hkeys]
+  constructor
+  · intro hmem
+    obtain ⟨v, hv⟩ := (RTable.get_isSome_iff t nb).mpr hmem
+    exact ⟨v, hrange _ (RTable.mem_of_get t nb v hv), ((tableRule_spec nb t).1 v).mpr hv⟩
+  · intro hmem
+    exact (tableRule_spec nb t).2.1.mpr hmem
+
+/-- In particular `table_rule` is total on the alphabet of a table built by `random_rule_table`. -/
+theorem tableRule_total_rrt (k r q : Nat) (sq iso : Bool) (oracle : RrtOracle) (st : RrtSt) (hk : 2 ≤ k)
+    (h : randomRuleTable k r q sq iso oracle = .ok st) (nb : List Nat)
+    (hlen : nb.length = 2 * r + 1) (hdig : ∀ d ∈ nb, d < k) :
+    ∃ v, v < k ∧ tableRule nb st.table = .ok v := by
+  obtain ⟨hkeys, hrange⟩ := rrt_complete k r q sq iso oracle st hk h
+  exact (tableRule_total k (2 * r + 1) st.table hk (by omega) hkeys hrange nb).1 ⟨hlen, hdig⟩
+
+/-- …and of the table returned by `table_walk_through` on it. -/
+theorem tableRule_total_walk (t : RTable) (num den k r q : Nat) (sq iso : Bool) (oracle : WalkOracle)
+    (hk : 2 ≤ k) (hq : q < k) (hkeys : t.map (·.1) = allStates k (2 * r + 1))
+    (hrange : ∀ e ∈ t, e.2 < k) (nb : List Nat) (hlen : nb.length = 2 * r + 1) (hdig : ∀ d ∈ nb, d < k) :
+    ∃ v, v < k ∧ tableRule nb (tableWalkThrough t num den k r q sq iso oracle).table = .ok v :=
+  (tableRule_total k (2 * r + 1) _ hk (by omega)
+    ((walk_keys t num den k r q sq iso oracle hk hkeys).trans hkeys)
+    (walk_range t num den k r q sq iso oracle hk hq hrange) nb).1 ⟨hlen, hdig⟩
+
+/-! ## Non-vacuity: concrete small tables -/
+
+/-- An oracle that alternates "other state" / "quiescent". -/
+private def o1 : RrtOracle := fun i => if i % 2 = 0 then some i else none
+
+/-- `k = 2, r = 1, q = 0`, both flags: the 8-entry table, 3 quiescent entries, 4 random decisions. -/
+private def t0 : RTable :=
+  [([0,0,0],0), ([0,0,1],1), ([0,1,0],0), ([0,1,1],1), ([1,0,0],1), ([1,0,1],0), ([1,1,0],1), ([1,1,1],1)]
+
+example : (randomRuleTable 2 1 0 true true o1).toOption.map (fun s => (s.table, s.count, s.used))
+    = some (t0, 3, 4) := by decide
+
+/-- `n = 1`: every key is uniform, strong quiescence forces the identity table and no random decision. -/
+example : (randomRuleTable 3 0 1 true false o1).toOption.map (fun s => (s.table, s.count, s.used))
+    = some ([([0],0), ([1],1), ([2],2)], 1, 0) := by decide
+
+example : (randomRuleTable 2 1 2 true false o1).toOption = none := by decide
+
+example : allStates 2 3 = [[0,0,0],[0,0,1],[0,1,0],[0,1,1],[1,0,0],[1,0,1],[1,1,0],[1,1,1]] := by decide
+
+/-- Walk down from lambda 5/8 towards 1/4 (isotropic: two entries per iteration): 5/8 → 3/8 → 1/8, crossed. -/
+example : (tableWalkThrough t0 1 4 2 1 0 true true (fun i => (i + 1, i))).table =
+    [([0,0,0],0), ([0,0,1],0), ([0,1,0],0), ([0,1,1],0), ([1,0,0],0), ([1,0,1],0), ([1,1,0],0), ([1,1,1],1)] := by
+  decide
+
+/-- Walk up towards lambda 1 under strong quiescence: stops at 7/8 because no admissible entry remains. -/
+example : (tableWalkThrough t0 1 1 2 1 0 true true (fun i => (i + 1, i))).table =
+    [([0,0,0],0), ([0,0,1],1), ([0,1,0],1), ([0,1,1],1), ([1,0,0],1), ([1,0,1],1), ([1,1,0],1), ([1,1,1],1)] ∧
+    upCands 0 true (tableWalkThrough t0 1 1 2 1 0 true true (fun i => (i + 1, i))).table = [] := by
+  decide
+
+example : tableRule [0,1,1] t0 = .ok 1 := by decide
+example : tableRule [0,2,1] t0 = .error .ValueError := by decide
+example : tableRule [0,1] t0 = .error .ValueError := by decide
+
 end Cpl.C17
